@@ -28,6 +28,13 @@ class CFG:
         self.exit_unreach = self._new('unreach')   # __builtin_unreachable
         self.labels = {}
         self.owner = {}                            # id(ast node) -> cfg Node
+        # named conditions: `const bool too_few = count < length; if (too_few) ...` is analysed as `if (count < length)`.
+        # Only side-effect-free initialisers over never-modified variables (ast.pure_aliases, const member calls allowed).
+        try:
+            self.bool_aliases = {k: v for k, v in A.pure_aliases(body, allow_const_calls=True).items()} if isinstance(body, dict) else {}
+        except Exception:
+            self.bool_aliases = {}
+        self._alias_depth = 0
         start = self._build(body, self.exit_return, Ctx())
         self._link(self.entry, start)
         self._finish()
@@ -68,6 +75,15 @@ class CFG:
             return self._cond(s['args'][0], f, t)
         if k == 'CallExpr' and A.callee_name(s) == '__builtin_expect' and s.get('args'):
             return self._cond(A.strip(s['args'][0], casts=True), t, f)
+        sc = A.strip(s, casts=True)
+        if sc is not None and sc.get('k') == 'DeclRefExpr' and sc.get('id') in self.bool_aliases and self._alias_depth < 4:
+            init = A.strip(self.bool_aliases[sc['id']], casts=True)
+            # only genuine conditions (comparisons, logical operators, negations, boolean calls), not plain values
+            if init is not None and (init.get('k') in ('BinaryOperator', 'UnaryOperator', 'CXXOperatorCallExpr', 'CXXMemberCallExpr', 'CallExpr') ):
+                if not (init.get('k') == 'BinaryOperator' and init.get('op') not in ('&&', '||', '<', '>', '<=', '>=', '==', '!=')):
+                    self._alias_depth += 1
+                    try: return self._cond(self.bool_aliases[sc['id']], t, f)
+                    finally: self._alias_depth -= 1
         n = self._new('cond', ast=s)
         c = A.const(s) if self.prune else None
         if c is None or c:
